@@ -9,7 +9,7 @@ From Coq Require Import List NArith Bool.
 From SV Require Import Text.Str Text.Prog Text.Tokenizer.
 From SV Require Import KV.KvBase KV.KvLex KV.KvParse KV.KvSer KV.KvSym KV.KvParseProofs KV.KvRoundtrip KV.KvStrip
   KV.KvRefine KV.KvDelivery KV.KvExport KV.KvFlags KV.KvLoop KV.KvLoopRef KV.KvLoopProofs KV.KvLoopEquiv KV.KvLoopRoundtrip
-  KV.KvWriter KV.KvFlagProg KV.KvWProg KV.KvProperty KV.KvNoEsc.
+  KV.KvWriter KV.KvFlagProg KV.KvWProg KV.KvProperty KV.KvNoEsc KV.KvShift.
 Import ListNotations.
 Open Scope N_scope.
 
@@ -306,6 +306,31 @@ Theorem kv_roundtrip_postprocessed_indent_refuted :
      (indent_lines [TAB] (serialise_node (ref_sercfg (PEsc FName)) ref_escfg (with_start o []) k))
    = POk [Leaf [97; 28; 9; 98] [99]]).
 Proof. exact (conj post_delivery_rejected post_indent_refuted). Qed.
+
+(** How start_indent enters the text (the positive counterpart of the refutation above).  [shift pre text] puts [pre] in
+    front of every line of [text], a line being what ends at a LINE FEED and nothing else.  For write templates that are
+    sequences of writer lines ([lines_ok]: every line starts with exactly one cur_indent, continues with literal
+    characters other than LF, indent, escaped fields, and ends with a literal LF; the children get cur_indent followed by
+    indents), serialise() with start_indent [s] writes the text of serialise() with the empty start_indent, every line
+    shifted by [s] -- for every tree and every string content, because raw line feeds never occur inside the quotes. *)
+Theorem serialise_start_indent_shifts_writer_lines : forall C E o,
+  esc_ok E = true -> no_lf (o_indent o) = true -> lines_ok C o = true ->
+  forall k, serialise_node C E o k = shift (o_start o) (serialise_node C E (with_start0 o) k).
+Proof. exact serialise_node_shift. Qed.
+
+(** The same for [_serialise] at any cur_indent, with the fact that makes it compose: the text ends in a line feed. *)
+Theorem ser_node_is_shift_of_unindented : forall C E o,
+  esc_ok E = true -> no_lf (o_indent o) = true -> lines_ok C o = true ->
+  forall k cur, ser_node C E o cur k = shift cur (ser_node C E o [] k) /\ closed (ser_node C E o cur k) = true.
+Proof. exact ser_node_shift. Qed.
+
+Theorem start_indent_hypothesis_satisfiable : forall o, lines_ok (ref_sercfg (PEsc FName)) o = true.
+Proof. exact ref_sercfg_lines_ok. Qed.
+
+(** A leaf template with the indent inside the quotes is rejected. *)
+Theorem start_indent_inside_quotes_rejected : forall o,
+  lines_ok (ref_sercfg' [PLit [34]; PVar VCurIndent; PEsc FName; PLit [34; 32; 34]; PEsc FValue; PLit [34; 10]]) o = false.
+Proof. exact indent_inside_quotes_rejected. Qed.
 
 (** [fp : ftree]: [_read_flag] executed symbolically.  Every tree accepted by [flagprog_ok] computes [read_flag] of
     KV/KvFlags.v for every flag text, mapping, default table and casefold function: the hand model of [_read_flag] is
